@@ -6,7 +6,9 @@ patch=$(realpath "$1"); shift
 cd /verif
 if ! git -C /repo diff --quiet; then echo "refusing: /repo has uncommitted changes"; exit 2; fi
 git -C /repo apply "$patch" || { echo "patch does not apply: $patch"; exit 2; }
-trap 'git -C /repo checkout -- . ; git -C /repo clean -fdq visitor/tests >/dev/null 2>&1' EXIT
+# the evidence files are rewritten by every run: keep the ones of the last run on the unchanged tree
+ev=$(mktemp -d /tmp/verif-evidence.XXXXXX); cp evidence/*.json "$ev"/
+trap 'git -C /repo checkout -- . ; git -C /repo clean -fdq visitor/tests >/dev/null 2>&1; cp "$ev"/*.json /verif/evidence/; rm -rf "$ev"' EXIT
 for id in "$@"; do
   out=$(./check "$id" --tier "${TIER:-quick}" 2>/dev/null); rc=$?
   echo "$(basename "$patch") $id exit=$rc $(echo "$out" | grep -c '^VIOLATION') violation lines; $(echo "$out" | grep '^VIOLATION' | head -2 | sed 's/.*#//' | tr '\n' ';')"
